@@ -351,6 +351,41 @@ theorem vecHist_append (h t : List VecOp) :
 example : matHistGuard (2, 3) [.resize 4 3, .at 3, .sum 4 3, .transpose] = pass ∧
     matHistGuard (2, 3) [.resize 4 3, .at 4] = stop ∧ matHistGuard (2, 3) [.resize 4 3, .sum 2 3] = stop := by decide
 
+/-- whatever self-consistent state a moved-from / moved-to / swapped vector is in (any reported size `d`): the requests
+    formed from the size it reports are accepted, the index equal to that size is rejected -/
+theorem vecRel_shape_free (d : Nat) (q : RelReq) : vecRelGuard d q = relOutcome q := by
+  cases q with
+  | useAll =>
+    simp only [vecRelGuard, relOutcome, vecPairGuard, vecIndexGuard, pass, stop]
+    by_cases h : d = 0 <;> simp [h]
+    omega
+  | atSize => simp [vecRelGuard, relOutcome, vecIndexGuard]
+  | grow k =>
+    simp only [vecRelGuard, relOutcome, vecIndexGuard, pass, stop]
+    by_cases h : d + k = 0 <;> simp [h]
+    omega
+
+theorem matRel_shape_free (s : Nat × Nat) (q : RelReq) : matRelGuard s q = relOutcome q := by
+  cases q with
+  | useAll =>
+    simp only [matRelGuard, relOutcome, matSumGuard, matVecGuard, matIndexGuard, pass, stop]
+    by_cases h : s.1 = 0 <;> simp [h]
+    omega
+  | atSize => simp [matRelGuard, relOutcome, matIndexGuard]
+  | grow k =>
+    simp only [matRelGuard, relOutcome, matIndexGuard, pass, stop]
+    by_cases h : s.1 + k = 0 <;> simp [h]
+    omega
+
+/-- a history of relative requests on objects in ARBITRARY self-consistent states (moved-from, moved-to, swapped, copied
+    out of a container): the outcome is that of the requests alone — it stops at the first `atSize` and nowhere else -/
+theorem relHist_shape_free (steps : List (Nat × RelReq)) (steps' : List ((Nat × Nat) × RelReq)) :
+    seqGuard (steps.map fun p => vecRelGuard p.1 p.2) = seqGuard (steps.map fun p => relOutcome p.2) ∧
+    seqGuard (steps'.map fun p => matRelGuard p.1 p.2) = seqGuard (steps'.map fun p => relOutcome p.2) := by
+  constructor
+  · congr 1; apply List.map_congr_left; intro p _; exact vecRel_shape_free p.1 p.2
+  · congr 1; apply List.map_congr_left; intro p _; exact matRel_shape_free p.1 p.2
+
 /-! ## 3. Interpolation -/
 
 theorem interpCtor_guard_iff (xs ys : List Rat) (xd fd : Rat) :
